@@ -4,6 +4,7 @@ import (
 	"bytes"
 	"fmt"
 	"io"
+	"verif/internal/mon"
 
 	"github.com/ulikunitz/xz"
 	"github.com/ulikunitz/xz/lzma"
@@ -16,7 +17,7 @@ func libXZ(in []byte, cfg xz.ReaderConfig) (out []byte, err error) {
 			err = fmt.Errorf("PANIC: %v", p)
 		}
 	}()
-	r, err := cfg.NewReader(bytes.NewReader(in))
+	r, err := cfg.NewReader(sourceVaried(in, uint64(cfg.DictCap)))
 	if err != nil {
 		return nil, fmt.Errorf("open: %w", err)
 	}
@@ -29,7 +30,7 @@ func libLZMA(in []byte) (out []byte, err error) {
 			err = fmt.Errorf("PANIC: %v", p)
 		}
 	}()
-	r, err := lzma.ReaderConfig{DictCap: 4096}.NewReader(bytes.NewReader(in))
+	r, err := lzma.ReaderConfig{DictCap: 4096}.NewReader(sourceVaried(in, 1))
 	if err != nil {
 		return nil, fmt.Errorf("open: %w", err)
 	}
@@ -42,7 +43,7 @@ func libLZMA2(in []byte, dict int) (out []byte, err error) {
 			err = fmt.Errorf("PANIC: %v", p)
 		}
 	}()
-	r, err := lzma.Reader2Config{DictCap: dict}.NewReader2(bytes.NewReader(in))
+	r, err := lzma.Reader2Config{DictCap: dict}.NewReader2(sourceVaried(in, uint64(dict)+2))
 	if err != nil {
 		return nil, fmt.Errorf("open: %w", err)
 	}
@@ -90,4 +91,37 @@ func readVaried(r io.Reader, in []byte, salt uint64) ([]byte, error) {
 			return out, err
 		}
 	}
+}
+
+// sourceVaried wraps the stream bytes in one of several kinds of io.Reader, chosen by a hash of
+// the bytes and salt: a *bytes.Reader (which is also an io.ByteReader and io.WriterTo) for half
+// of the streams, otherwise a plain reader that delivers everything at once, short reads, or
+// its last bytes together with io.EOF.  All of them are legal sources; the result of decoding
+// must not depend on the choice.
+func sourceVaried(in []byte, salt uint64) io.Reader {
+	h := (salt+7)*0x9e3779b97f4a7c15 ^ uint64(len(in))*0x100000001b3
+	for i := 0; i < len(in); i += 1 + len(in)/32 {
+		h = (h ^ uint64(in[i])) * 0x100000001b3
+	}
+	mode := (h >> 29) % 8
+	if mode < 4 {
+		return bytes.NewReader(in)
+	}
+	src := mon.NewSource(in)
+	switch mode {
+	case 4:
+		src.Frag = "whole"
+	case 5, 6:
+		src.Frag = "eofwith"
+	default:
+		src.Frag = "short"
+	}
+	x := h | 1
+	src.Next = func(max int) int {
+		x ^= x << 13
+		x ^= x >> 7
+		x ^= x << 17
+		return 1 + int(x%4000)
+	}
+	return src
 }
